@@ -1463,6 +1463,9 @@ func (x *Exec) frameCheck(key, ref string, p token.Pos) {
 	for _, a := range x.fc.Assigns {
 		it := x.assignKey(a)
 		if it.key == "*" {
+			if x.preservedKeys()[key] {
+				continue // `opt preserves`: only fresh cells of this component may be written
+			}
 			return
 		}
 		if it.key != key {
@@ -1488,6 +1491,19 @@ func (x *Exec) frameCheck(key, ref string, p token.Pos) {
 		allowed = append(allowed, fmt.Sprintf("(= %s 0)", ref)) // the nil slice has no elements to write
 	}
 	x.oblige("frame", "write-"+key, x.frameTags(), len(x.frameTags()) == 0, or(allowed...), "write to "+key+" not covered by assigns", x.pos(p))
+}
+
+// preservedKeys: the components a function that `assigns everything` promises
+// to leave alone (`opt preserves`); checked like a frame for verified functions.
+func (x *Exec) preservedKeys() map[string]bool {
+	out := map[string]bool{}
+	if x.fc == nil {
+		return out
+	}
+	for _, pk := range splitList(x.fc.Opts["preserves"]) {
+		out[x.assignKey(pk).key] = true
+	}
+	return out
 }
 
 func (x *Exec) frameTags() []string {
